@@ -60,6 +60,9 @@ class ProtoGreedySearch():
 
         self.cases_dataset = sanitize_dataset(cases_dataset, self.batch_size)
 
+        # number of features of the cases: needed whatever the kernel function is
+        self.nb_features = self.cases_dataset.element_spec.shape[-1]
+
         # set kernel function
         if kernel_fn is None:
             # define kernel fn to default rbf kernel
